@@ -433,6 +433,11 @@ func runSchedule(c *Ctx, rng *RNG, cfg rtConfig) *rtRun {
 		if rep != "configErr "+r.configErr {
 			r.mismatch = fmt.Sprintf("Config returned error class %q (%v), model %q", r.configErr, err, rep)
 		}
+		// Config refused the initial stack: there is no Dials, so nothing of the library may be running for it (the
+		// Config context is still alive here: a monitor started too early would sit there with the refused config)
+		if left := rtDrainStale(150 * time.Millisecond); left != "" {
+			r.failedCfgLeak = strings.SplitN(left, "\n", 4)[0] + " " + strings.Join(strings.Fields(strings.SplitN(left+"\n\n\n", "\n", 4)[1]), " ")
+		}
 		rootCancel()
 		return r
 	}
